@@ -110,6 +110,31 @@ Theorem C11_restarted_node_stays_consistent :
 Proof. intros t g fuel hist batch k hist2 [A [B [C D]]]. exact (restarted_run_consistent t g A B C D fuel hist batch k hist2). Qed.
 Print Assumptions C11_restarted_node_stays_consistent.
 
+(* ---- process memory ------------------------------------------------------------------------------ *)
+
+(* The model has database-only semantics: a node is [mkS disk cur future wlog budget];
+   no block/header/number cache exists in it, every read of an import goes to [disk_of s]
+   (the correspondence run compares this with the long-lived real process on every case,
+   and the harness additionally replays every case with a restart between all calls).
+   The only memory of the running process besides the queue of future blocks is its head,
+   and that is determined by the database: after any history a fresh process over the same
+   database starts on exactly the head the running process holds.
+   PARTIAL: the full statement "InsertChain's database and error are the same from [s] and
+   from [fresh (disk_of s) (cur s)]" additionally needs a simulation lemma through
+   ic_loop/insert_sidechain (independence of [wlog]; [future] empty or equal) - not proved. *)
+Theorem C11_import_is_a_function_of_database_and_offer_partial :
+  forall t g fuel hist, wf t g ->
+    let s := run t fuel (init_st g) hist in
+    budget s = None ->
+    exists d, recover t (disk_of s) = Some (d, cur s) /\ consistent_b t d (cur s) = true.
+Proof.
+  intros t g fuel hist [A [B [C D]]] s Hb.
+  destruct (import_consistent t g A B D fuel hist) as [_ Hc]. fold s in Hc. rewrite (Hc Hb).
+  destruct (crash_consistent t g A B C D fuel hist [] 0%nat Hb) as [d [R [Q _]]].
+  exists d. exact (conj R Q).
+Qed.
+Print Assumptions C11_import_is_a_function_of_database_and_offer_partial.
+
 (* ---- not wedged ------------------------------------------------------------------------------------ *)
 
 (* full statement (reference): interrupted batch again + one further good block on
